@@ -302,8 +302,10 @@ def m_saturating(op):
         w = x.w
         lo, hi = (-(1 << (w - 1)), (1 << (w - 1)) - 1) if x.s else (0, (1 << w) - 1)
         if x.conc and y.conc:
-            r = x.sval() + y.sval() if op == 'add' else x.sval() - y.sval()
+            r = x.sval() + y.sval() if op == 'add' else x.sval() - y.sval() if op == 'sub' else x.sval() * y.sval()
             return Int(max(lo, min(r, hi)), w, x.s)
+        if op == 'mul':
+            raise Inconclusive('saturating_mul of symbolic operands')
         ext = z3.SignExt if x.s else z3.ZeroExt
         zx, zy = ext(2, x.z()), ext(2, y.z())
         r = zx + zy if op == 'add' else zx - zy
@@ -828,6 +830,7 @@ def install(it):
     A(r'std::mem::drop::<.*>', m_unit)
     A(r'core::num::<impl [ui]\w+>::saturating_add', m_saturating('add'))
     A(r'core::num::<impl [ui]\w+>::saturating_sub', m_saturating('sub'))
+    A(r'core::num::<impl [ui]\w+>::saturating_mul', m_saturating('mul'))
     A(r'core::num::<impl u\w+>::checked_sub', m_checked_sub)
     A(r'core::num::<impl [ui]\w+>::wrapping_add', lambda it, a, ty, c: it.binop('Add', a[0], a[1]))
     A(r'core::num::<impl [ui]\w+>::wrapping_sub', lambda it, a, ty, c: it.binop('Sub', a[0], a[1]))
